@@ -12,9 +12,16 @@
 (*    - for the bound-consistent algorithms, must not prune.               *)
 (* Otherwise the engine, which would not wake the constraint, could stop   *)
 (* at a non-fixpoint or accept a violating assignment.                     *)
-(* The circuit constraints (no_sub_cycle, scc) are out of this lemma: the  *)
-(* contract-level model of them is stronger than their algorithm (they are *)
-(* covered by the fixpoint probes of the engine traces).                   *)
+(* The circuit constraints (no_sub_cycle, scc) are not bound-consistent and *)
+(* may prune again (the property exempts them from "does not change a      *)
+(* domain"): for them the lemma is the no-failure half only, stated on the *)
+(* EXPLICIT definition of their algorithm (Constraints.tla, NoSubCycleStep *)
+(* and SccCheck, which the call traces compare with the real functions):   *)
+(* for every box B the algorithm accepts and leaves unchanged, and every   *)
+(* B' reached from B by unwatched moves, the algorithm on B' must not      *)
+(* fail.  (Pinned tree: no_sub_cycle watched GROUND only, although it      *)
+(* prunes on the bounds of a path's end - an unwatched MAX change made it  *)
+(* prune, instantiate, cascade and fail: repaired by 8c5d267.)             *)
 (***************************************************************************)
 EXTENDS Constraints, Json, IOUtils
 
@@ -46,8 +53,14 @@ Witnesses(r) ==
           /\ LET j == Ideal(r.alg, r.params, B2) IN j[1] = 0 \/ (r.alg \in HullAlgs /\ j[2] # B2)}
 
 \* cheaper formulation used by the run: enumerate B, then only its unwatched sub-boxes
+CircuitInsufficient(r) ==
+  \E B \in BoxesOf(r.n, r.lo, r.hi) :
+     /\ LET f == Ideal(r.alg, r.params, B) IN f[1] # 0 /\ f[2] = B
+     /\ \E B2 \in SubBoxes(B, r.masks, 1) : Ideal(r.alg, r.params, B2)[1] = 0
+
 Insufficient(r) ==
-  IF r.alg \in CircuitAlgs \/ r.alg = "dummy" THEN FALSE
+  IF r.alg = "dummy" THEN FALSE
+  ELSE IF r.alg \in CircuitAlgs THEN CircuitInsufficient(r)
   ELSE \E B \in BoxesOf(r.n, r.lo, r.hi) :
          /\ InContract(r.alg, r.params, B) /\ Fixpoint(r.alg, r.params, B)
          /\ \E B2 \in SubBoxes(B, r.masks, 1) :
